@@ -290,6 +290,13 @@ func main() {
 			fatal("%v", err)
 		}
 		fmt.Printf("corr: %s %s: %d evaluations, %d distinct non-trivial, %d failures, %.1fs\n", prop, tier, h.res.Evaluations, h.res.Distinct, len(h.res.Failures), h.res.WallS)
+	case "raceworker":
+		var seed uint64
+		var iters, gor int
+		fmt.Sscan(os.Args[2], &seed)
+		fmt.Sscan(os.Args[3], &iters)
+		fmt.Sscan(os.Args[4], &gor)
+		os.Exit(raceWorker(seed, iters, gor))
 	case "replay":
 		runnerPath, path := os.Args[2], os.Args[3]
 		b, err := os.ReadFile(path)
